@@ -6,7 +6,8 @@
    read_thrift/read_list, dict_eq), Impl/CThriftSpec.v (the value tree an object denotes). *)
 From Coq Require Import NArith ZArith List Bool.
 From Pq Require Import Base.Bytes Thrift.Varint Thrift.Compact Thrift.Idl Thrift.IdlPinned
-  Impl.CThrift Impl.CThriftSpec Proofs.CompactProofs Proofs.CThriftProofs.
+  Impl.CThrift Impl.CThriftSpec Proofs.CompactProofs Proofs.CThriftProofs Proofs.CThriftRead
+  Proofs.CThriftRoundtrip Proofs.CThriftMain.
 Import ListNotations.
 Open Scope N_scope.
 
@@ -25,6 +26,27 @@ Print Assumptions C10_compact_roundtrip.
 Theorem C10_conformance_bytes : forall v, ser v = option_map wr (t_top v).
 Proof. exact ser_spec. Qed.
 Print Assumptions C10_conformance_bytes.
+
+(* the round trip of cencoding.pyx (partial: the full statement "for every metadata structure" is false on
+   the pinned tree, see the refuted theorems).  For every object in `dom` - every key that carries a
+   value is in 1..13, no floats, byte strings and lists shorter than 2^31, lists homogeneous (ints in C int
+   range, str, or dicts), dict nesting up to 63 - with ANY number of fields, list elements (row groups,
+   columns, key-values) and ANY string lengths: if the serialisation fits the buffer, to_bytes returns it
+   completely and read_thrift of it is an object that ThriftObject.__eq__ (dict_eq) considers equal. *)
+Theorem C10_roundtrip_partial : forall cap v bs,
+  dom 63 v = true -> ser v = Some bs -> len bs <= cap ->
+  to_bytes cap v = OBytes bs /\ exists v', from_buffer bs = Some (v', []) /\ obj_eq v v' = true.
+Proof. intros cap v bs Hd Hs Hc. split; [exact (to_bytes_fits cap v bs Hs Hc)|exact (roundtrip v bs Hd Hs)]. Qed.
+Print Assumptions C10_roundtrip_partial.
+
+(* read_thrift/read_list parse the SPECIFICATION's encoding of every value tree in the class they handle
+   (short-form field headers, ids <= 127, no doubles, lists of i32/i64/binary/struct) - "parsed from
+   independently encoded bytes": any sizes, any nesting up to 64, any trailing bytes (page data) *)
+Theorem C10_reads_spec_encoding : forall fs rest,
+  (depth (TStruct fs) <= w_depth)%nat -> rwf (TStruct fs) = true -> rdable (TStruct fs) = true ->
+  from_buffer (wr (TStruct fs) ++ rest) = Some (pv_of (TStruct fs), rest).
+Proof. exact from_buffer_spec. Qed.
+Print Assumptions C10_reads_spec_encoding.
 
 (* refuted, cencoding.pyx `for i in range(1, 14)`: field id 14 (ColumnMetaData.bloom_filter_offset,
    LogicalType.UUID) is dropped; the parsed-back object is not equal to the original *)
@@ -53,5 +75,7 @@ Example C10_nonvacuous :
   let v := PDict false (Some [2%Z]) [(1%Z, PStr [107]); (2%Z, PInt 7); (3%Z, PInt (-1)); (4%Z, PList [PInt 1; PInt 2])] in
   ser v = Some [24; 1; 107; 21; 14; 22; 1; 25; 37; 2; 4; 0]
   /\ option_map fst (thrift_dec false [24; 1; 107; 21; 14; 22; 1; 25; 37; 2; 4; 0]) = t_top v
-  /\ to_bytes 5 (PDict false None [(1%Z, PInt 1); (2%Z, PInt 2); (3%Z, PInt 3)]) = OBytes [22; 2; 22; 4; 22].
+  /\ to_bytes 5 (PDict false None [(1%Z, PInt 1); (2%Z, PInt 2); (3%Z, PInt 3)]) = OBytes [22; 2; 22; 4; 22]
+  /\ dom 63 v = true
+  /\ option_map (fun p => obj_eq v (fst p)) (from_buffer [24; 1; 107; 21; 14; 22; 1; 25; 37; 2; 4; 0]) = Some true.
 Proof. vm_compute. repeat split. Qed.
